@@ -313,7 +313,7 @@ class Replayer:
                     self.drift.append(("not-enabled", label, trig))
                     return False
             if not self._do(step, crash_after):
-                return True
+                return not self.escaped
         else:
             kind = cause
             cand = None
@@ -332,7 +332,7 @@ class Replayer:
                 self.unrealisable = True
                 return False
             if not self._do(cand, crash_after):
-                return True
+                return not self.escaped
         real = self.real_frame_ops(mid, trig if mid is None and trig else None,
                                    model=(target.get("ops", []) if crash_after is None else (want_prefix or [])))
         if crash_after is None:
@@ -352,6 +352,20 @@ class Replayer:
         return True
 
     def _do(self, step, crash_after):
+        try:
+            return self._do1(step, crash_after)
+        except Exception as ex:           # an exception escaping a handler is an observation (the run is judged as it stands)
+            import traceback
+            w = self.w
+            self.escaped = "%s: %s | %s" % (type(ex).__name__, ex, traceback.format_exc()[-600:])
+            if w.rec.in_frame:
+                w.rec.end_frame()
+            w.rec.emit("escaped", err=self.escaped[:300])
+            self.drift.append(("escaped", self.escaped[:200]))
+            self.seen = len(w.rec.events)
+            return False
+
+    def _do1(self, step, crash_after):
         if crash_after is None:
             self.w.do(step)
             return True
